@@ -33,6 +33,15 @@ theorem template_ok : templateOK Gen.errorTemplateLines = true := by decide +ker
 theorem template_fields_agree :
     templateFieldNames Gen.errorTemplateLines = some Gen.errorTemplateFields := by decide +kernel
 
+/-- every replacement of both tables is a character reference an HTML parser decodes back to
+the replaced character -/
+theorem escape_tables_decode :
+    PairsDecode Gen.pageEscapePairs = true ∧ PairsDecode Gen.helperEscapePairs = true := by
+  constructor <;> decide +kernel
+
+/-- no byte that `urlquote` passes through unquoted is a special character -/
+theorem quote_table_ok : QuoteTableOK = true := by decide +kernel
+
 /-- every `errors_map` entry answers with a status that carries a body and a Content-Type -/
 theorem errors_map_ok : errorsMapOK = true := by decide +kernel
 
@@ -43,6 +52,18 @@ and of `html_escape` (as the last-resort page uses it) contains none of `< > " '
 `&` in it starts one of the character references -/
 theorem escape_no_markup (s : Str) : Inert (pageEscape s) ∧ Inert (helperEscape s) :=
   ⟨(escapeWith_tokenized _ escape_tables_ok.1 s).inert, (escapeWith_tokenized _ escape_tables_ok.2 s).inert⟩
+
+/-- escaping loses nothing and adds nothing: a strict HTML parser reads the escaped text as
+pure character data (no tag starts, every `&` is a reference) and the data is `s` itself -/
+theorem escape_reads_back (s : Str) :
+    htmlText (pageEscape s) = some s ∧ htmlText (helperEscape s) = some s :=
+  ⟨htmlText_escapeWith _ escape_tables_ok.1 escape_tables_decode.1 s,
+   htmlText_escapeWith _ escape_tables_ok.2 escape_tables_decode.2 s⟩
+
+/-- path text enters `Request.url` only percent-quoted: `urlquote` outputs no special
+character at all, whatever the path -/
+theorem urlquote_no_special (s : Str) : ∀ c ∈ urlquote s, c ∉ special :=
+  urlquote_safe quote_table_ok s
 
 /-- `repr_preserves`, general half: whatever the string and the quote `repr` picks, a `<`, `>`
 or `&` in `repr(s)` is a character of `s` itself: `repr` introduces none -/
@@ -127,7 +148,8 @@ not an application error handler crashes, the response is one of
 * body-less (HEAD);
 * `application/json` whose body reads back as the three-key error dict;
 * `text/html`: one of the closed list of framework pages (`frameworkPages`, chosen without
-  looking at request text) around the inert cell of the request URL;
+  looking at request text) around the inert cell of `Request.url` (so Host, forwarded host and
+  scheme, path and query string reach the page through `escape` only);
 * the last-resort page: two constants around the escaped path. -/
 theorem served_error_inert (pr : Char → Bool) (req : Req) (oc : Outcome) (hoc : oc.framework = true)
     (handlerFails : Bool) (dbg : Str × Str) (r : Resp)
@@ -135,7 +157,7 @@ theorem served_error_inert (pr : Char → Bool) (req : Req) (oc : Outcome) (hoc 
     r.body = [] ∨
     (r.ctype = jsonType ∧ ∃ b x t, jsonParse r.body =
         some [("body".toList, b), ("exception".toList, some x), ("traceback".toList, t)]) ∨
-    (r.ctype = htmlType ∧ ∃ sb ∈ frameworkPages, ∃ url,
+    (r.ctype = htmlType ∧ ∃ sb ∈ frameworkPages, ∃ url, requestUrl req.env = .ok url ∧
         r.body = pagePre Gen.errorTemplateLines sb ++ urlCell pr url ++ pagePost Gen.errorTemplateLines sb ∧
         Inert (urlCell pr url)) ∨
     (r.ctype = htmlType ∧
@@ -198,7 +220,7 @@ theorem served_error_inert (pr : Char → Bool) (req : Req) (oc : Outcome) (hoc 
         | false =>
           right; right; left
           rw [hr, hh]
-          refine ⟨rfl, (e.status, strOpt e.body), hsb, url, ?_,
+          refine ⟨rfl, (e.status, strOpt e.body), hsb, url, rfl, ?_,
             (urlCell_tokenized pr escape_tables_ok.1 url).inert⟩
           simp only [Bool.false_eq_true, if_false]
 
